@@ -210,7 +210,10 @@ def check_create(ctx, p, i, e, key, it, crate, CFG):
     ctx.ob("R05.5", key + "/id", good, detail=why, sites=[e.site], sample={"id": show(e.key)[:120]})
     # R05.6 expiry clamp
     exp = field_of(e.value, "expires")
-    latest = ("vfield", ("param", "msg"), "Propose", "latest")
+    # the requested expiry: the `latest` field of whichever message creates the proposal (Propose, or a new message that calls the
+    # same handler)
+    variant_ = key.split("/")[1] if "/" in key else "Propose"
+    latest = ("vfield", ("param", "msg"), variant_, "latest")
     lsel = [c[1] for c in p.conds if c[0] == latest and isinstance(c[1], str)]
     cmpc = [c for c in p.conds if c[0][0] == "call" and c[0][1].endswith("partial_cmp") and isinstance(c[1], str)]
 
